@@ -29,6 +29,11 @@ impl SwiftField for Field28 {
         Self: Sized,
     {
         let (statement_str, sequence_str) = split_at_first(input, '/');
+        if sequence_str.is_none() && input.contains('/') {
+            return Err(ParseError::InvalidFormat {
+                message: "Sequence number after '/' cannot be empty".to_string(),
+            });
+        }
 
         // Parse statement number (5n)
         if statement_str.len() > 5 {
@@ -102,6 +107,11 @@ impl SwiftField for Field28C {
         Self: Sized,
     {
         let (statement_str, sequence_str) = split_at_first(input, '/');
+        if sequence_str.is_none() && input.contains('/') {
+            return Err(ParseError::InvalidFormat {
+                message: "Sequence number after '/' cannot be empty".to_string(),
+            });
+        }
 
         // Parse statement number (5n)
         if statement_str.len() > 5 {
